@@ -10,8 +10,43 @@ def families(tier):
     return D.api_variants(D.pos_family(SEED + 90, 200, maxlen=5, budget=40000), SEED + 9)
 
 
+def near_family(seed, n, maxlen=3):
+    """items right of `--` that look like a slip of a declared name or of a command: they are data, and a failing run
+    must not talk about them as if they were names (no "did you mean", no "no such flag / command")"""
+    out = []
+    for i in range(n):
+        named = [D.ar("a0", "one" if i % 2 else "opt", "str", "--name", "-n"), D.sw("s0", "--verbose")]
+        if i % 3 == 0:
+            tail = D.cmdtail([D.cmd("install", D.level([D.sw("ci", "-x")], D.NOTAIL))], optional=(i % 2 == 0))
+            near = ["--nam", "instal", "--verbos"][(i // 3) % 3]
+        else:
+            tail = D.postail(D.pos("p0", ["one", "opt", "many"][i % 3]))
+            near = ["--nam", "--verbos", "--nmae", "--nane"][i % 4]
+        d = D.mkdef(f"near{seed}_{i}", D.level(named, tail), maxlen=maxlen, extras=("dd", "near"), spells=("eq",), words=("x",))
+        d["alpha"]["near"] = near
+        out.append(d)
+    return out
+
+
+FORBID = ["did you mean", "no such flag", "no such command", "pass it to command"]
+
+
+def enrich_near(cases, out):
+    n = 0
+    with open(out, "w") as w:
+        for c in read_ndjson(cases):
+            # every item of these lines is data: the line begins with `--`
+            if c["line"] and c["line"][0]["t"] == "dd" and c["expect"]["class"] == "stderr":
+                c["expect"]["forbid"] = FORBID
+                n += 1
+            w.write(json.dumps(c) + "\n")
+    return {"failing_lines_of_data_only": n}
+
+
 def run(v):
     big = D.pos_family(SEED + 1090, 40, budget=10**9)
+    ncov = run_cmdline_property(v, near_family(SEED + 95, 12 if v.tier == "quick" else 36, maxlen=3 if v.tier == "quick" else 4), None,
+                                signature=cmdline_sig.signature, name="C09n", enrich=enrich_near)
     cov = run_cmdline_property(v, families(v.tier), "MC_CmdLine_design.cfg", signature=cmdline_sig.signature,
                                driver={"defs": big, "n": 15000 if v.tier == "quick" else 300000, "maxlen": 12, "mutate": 0.8,
                                        "extras": ("help",)})
@@ -20,6 +55,7 @@ def run(v):
     fcov = run_cmdline_property(v, D.pos_fb_family(SEED + 91, 30 if q else 60, maxlen=3 if q else 4, budget=2500 if q else 20000), None,
                                 signature=cmdline_sig.signature, name="C09f")
     cov = merge_cov(cov, fcov, "defaulted")
+    cov = merge_cov(cov, ncov, "near_misses_after_dashdash")
     # completion honours `--` too: after it nothing typed is a name or a subcommand, so none is offered (C14's bounds
     # on definitions with `--` in the alphabet; in positional-only states MayOffer holds nothing but the `--` hint)
     from checks import c14
